@@ -119,8 +119,11 @@ def impl(op, arg):
     if op == 'mpint1.enc':
         return guard(lambda: WriteBuf().write_mpint1(arg).write_flush().hex())
     if op == 'list.enc':
-        # names travel as bytes; the code joins str, so use latin-1 transparently (names here are ASCII)
-        return guard(lambda: WriteBuf().write_list([n.decode('ascii') for n in arg]).write_flush().hex())
+        # names travel as UTF-8 bytes; the code joins str and encodes the result
+        return guard(lambda: WriteBuf().write_list([n.decode('utf-8') for n in arg]).write_flush().hex())
+    if op == 'stringu.enc':
+        # the str flavour of write_string (encoded as UTF-8 by the code); the model sees the UTF-8 bytes
+        return guard(lambda: WriteBuf().write_string(arg.decode('utf-8')).write_flush().hex())
 
     def rd(fn, conv=lambda x: x):
         def run():
@@ -210,6 +213,8 @@ def line_of(op, arg):
         return '%s %d' % (op, 1 if arg else 0)
     if op == 'list.enc':
         return '%s %s' % (op, '_' if not arg else ','.join(tbytes(x) for x in arg))
+    if op == 'stringu.enc':
+        return 'string.enc %s' % tbytes(arg)
     return '%s %s' % (op, tbytes(arg))
 
 
@@ -264,6 +269,8 @@ def gen_kexinit(r, mal=False):
     w.write(bytes(r.getrandbits(8) for _ in range(16)))
     for _ in range(10):
         l = gen_namelist(r)
+        if r.random() < 0.08:
+            l.append(r.choice(['kéx-über@example.com', 'шифр', 'a€b']).encode('utf-8'))
         if r.random() < 0.1:
             l = [b'']
         body = b','.join(l)
@@ -336,6 +343,12 @@ def build_cases(ctx):
         s = bytes(r.getrandbits(8) for _ in range(r.choice([0, 1, 2, 3, 4, 5, 255, 256, r.randint(0, 600)])))
         cases.append(('string.enc', s, ['string']))
         cases.append(('list.enc', gen_namelist(r), ['namelist']))
+    uni = ['é', 'ü', 'ß', '€', '日本', 'кекс', '\U0001f511', 'a', 'b-c', '@', '.']
+    for _ in range(ctx.scale(200, 3000)):
+        t = ''.join(r.choice(uni) for _ in range(r.randint(1, 12)))
+        cases.append(('stringu.enc', t.encode('utf-8'), ['string', 'non-ascii-text']))
+        names = [''.join(r.choice(uni + ['x', 'y', 'z']) for _ in range(r.randint(1, 8))) for _ in range(r.randint(1, 5))]
+        cases.append(('list.enc', [n.encode('utf-8') for n in names], ['namelist', 'non-ascii-text']))
     cases.append(('list.enc', [], ['namelist', 'empty-list']))
     cases.append(('list.enc', [b''], ['namelist', 'empty-name']))
     # decoders on arbitrary / malformed bytes
@@ -415,11 +428,13 @@ def oracle(op, arg, res, fail):
             fail('encoder_error', op, arg, res, 'value is encoded')
         return
     if op.endswith('.enc'):
-        dec = impl(op[:-4] + '.dec', bytes.fromhex(res['ok']) + b'\x99\x98')
+        dec = impl(('string' if op == 'stringu.enc' else op[:-4]) + '.dec', bytes.fromhex(res['ok']) + b'\x99\x98')
         want = arg
         if op.startswith('mpint'):
             want = str(arg)
         elif op == 'string.enc':
+            want = arg.hex()
+        elif op == 'stringu.enc':
             want = arg.hex()
         elif op == 'list.enc':
             want = [x.decode() for x in arg] if arg else ['']
